@@ -45,6 +45,7 @@ def run(tier):
         race_jobs = [(vlib.seed() * 77 + i, "path" if i % 2 == 0 else "host", "stage" if i % 4 < 2 else "flock") for i in range(nr)]
         # scripted windows with a file / directory clash between what A sends and what B commits meanwhile
         race_jobs += [(vlib.seed() * 77 + 50_000 + k, form, "stage", sc) for k, sc in enumerate(hs.CLASH_RACES) for form in ("path", "host")]
+        race_jobs += [(vlib.seed() * 77 + 60_000 + k, form, "stage", sc) for k, sc in enumerate(hs.EMPTY_RACES) for form in ("path", "host")]
         recs = hs.run_all(copia, shim, SHIMDIR, os.path.join(work, "x"), hexes, hist_jobs, race_jobs,
                           large=(3000, 13000) if tier == "quick" else (3000, 9000, 13000, 40000))
         log(f"[C13] large trees: " + ", ".join(f"{x['n']} files -> second run exit {x['second']['exit']}" for x in recs if x["kind"] == "large"))
